@@ -379,9 +379,12 @@ func init() {
 		}})
 	RegisterCheck("C02", func(c *Ctx) {
 		c.Level = "exploration"
-		c.Rule = "complete enumeration of (mode) x (content-kind sequences up to length 2 [3 thorough]; every string class in every string field of every kind; result flags / structured content / _meta / annotations; prompt messages; resource contents; handler error texts; descriptors); distinct by (mode, case); every case is non-trivial (a full client/server round trip on real code)"
+		c.Rule = "complete enumeration of (mode) x (content-kind sequences up to length 2 [3 thorough]; every string class in every string field of every kind; result flags / structured content / _meta / annotations; prompt messages; resource contents; handler error texts; descriptors); distinct by (mode, case); every case is non-trivial (a full client/server round trip on real code); plus a preemption-bounded DFS of three calls in flight on one client (long text, short text, resource), each caller obtaining its own value"
 		c.Assume = append(c.Assume, "equality is judged on the JSON normal form (sorted keys, numbers as JSON numbers) of the server-side value and of the value the client API returns", "invalid UTF-8 is compared after encoding/json's documented replacement by U+FFFD", "memnet replaces net/http and pipes; deterministic default schedule")
 		c.Enumerate("c02/fidelity")
+		for _, mode := range AllModes {
+			c.DFS("c02/concurrent/"+mode, explore.Bounds{Preempt: c.Pick(1, 2), Dev: 0, POR: true, MaxExec: c.Pick(1500, 60000)})
+		}
 	})
 }
 
@@ -608,4 +611,88 @@ func c02Norm(s string) string {
 		s = strings.ReplaceAll(s, `"`+k+`":null`, `"`+k+`":[]`)
 	}
 	return s
+}
+
+// ---- two calls in flight ------------------------------------------------------------------------
+//
+// "What a handler returns is what the calling client obtains" also while another call of the same
+// client is being answered: three callers on one client, each asking for a different value (a long
+// text, a short text, a resource with a long text); whatever the order in which the answers are
+// produced, read and decoded, each caller obtains its own value code point for code point.
+
+func c02Concurrent(prefix []int, mode string) explore.Outcome {
+	var viol []explore.Violation
+	obs := &hx.Log{}
+	res := vsched.Run(cfgFor(prefix), func() {
+		vsched.SetBranching(false)
+		r := NewRig(mode)
+		val := func(tag string, n int) string { return "<" + tag + ">" + strings.Repeat(tag, n) + "</" + tag + ">" }
+		r.RegisterTool(mcp.NewTool("v", mcp.WithString("tag"), mcp.WithNumber("n")), func(ctx context.Context, req *mcp.CallToolRequest) (*mcp.CallToolResult, error) {
+			tag, _ := req.Params.Arguments["tag"].(string)
+			n, _ := req.Params.Arguments["n"].(float64)
+			return mcp.NewTextResult(val(tag, int(n))), nil
+		})
+		r.RegisterResource(&mcp.Resource{Name: "r", URI: "res://r"}, func(ctx context.Context, req *mcp.ReadResourceRequest) (mcp.ResourceContents, error) {
+			return mcp.TextResourceContents{URI: "res://r", Text: val("R", 700)}, nil
+		})
+		r.Start()
+		cl, err := r.Connect()
+		if err != nil {
+			viol = append(viol, V("setup-handshake-fails", "setting the scenario up with well-behaved peers fails: %v", err))
+			return
+		}
+		vsched.Quiesce()
+		vsched.SetBranching(true)
+		type outc struct {
+			got string
+			err error
+			ok  bool
+		}
+		outs := make([]outc, 3)
+		tool := func(i int, tag string, n int) {
+			vsched.Go("caller-"+tag, func() {
+				rq := &mcp.CallToolRequest{}
+				rq.Params.Name = "v"
+				rq.Params.Arguments = map[string]interface{}{"tag": tag, "n": n}
+				o, e := cl.CallTool(context.Background(), rq)
+				outs[i] = outc{TextOf(o), e, true}
+			})
+		}
+		tool(0, "A", 900)
+		tool(1, "b", 3)
+		vsched.Go("caller-R", func() {
+			rq := &mcp.ReadResourceRequest{}
+			rq.Params.URI = "res://r"
+			o, e := cl.ReadResource(context.Background(), rq)
+			got := ""
+			if o != nil && len(o.Contents) == 1 {
+				if t, ok := o.Contents[0].(mcp.TextResourceContents); ok {
+					got = t.Text
+				}
+			}
+			outs[2] = outc{got, e, true}
+		})
+		vsched.Quiesce()
+		want := []string{val("A", 900), val("b", 3), val("R", 700)}
+		for i, o := range outs {
+			switch {
+			case !o.ok:
+				viol = append(viol, V("concurrent-call-hangs:"+mode, "caller %d did not return; blocked: %v", i, vsched.LiveThreads()))
+			case o.err != nil:
+				viol = append(viol, V("concurrent-call-fails:"+mode, "caller %d, with two other calls in flight on the same client: %v", i, o.err))
+			case o.got != want[i]:
+				viol = append(viol, V("concurrent-value-differs:"+mode, "caller %d obtained %d bytes %q, its handler returned %d bytes %q", i, len(o.got), truncate(o.got, 50), len(want[i]), truncate(want[i], 50)))
+			}
+		}
+		obs.Add("ok")
+	})
+	return finishOutcome(res, obs, viol, true)
+}
+
+func init() {
+	for _, mode := range AllModes {
+		mode := mode
+		RegisterScenario(&Scenario{Name: "c02/concurrent/" + mode, Doc: "three callers on one client ask for a long text, a short text and a resource at the same time; each obtains the value its own handler returned",
+			Run: func(p []int, m []vsched.ChoicePoint) explore.Outcome { return c02Concurrent(p, mode) }})
+	}
 }
